@@ -230,7 +230,7 @@ func misfit(in, out zed.Type) string {
 			}
 		}
 		if sameKind {
-			return "no-exact-union-member:" + kindName(in)
+			return "no-exact-union-member"
 		}
 		return "no-union-member:" + kindName(in)
 	}
